@@ -91,7 +91,7 @@ def random_message(r, known: List[dict]) -> dict:
         kind = tgt["kind"] if r.random() < 0.9 else r.choice(KINDS)
         cand = [e[0] for e in tgt["els"]] + (["nosuch"] if r.random() < 0.3 else [])
         names = r.sample(cand, r.randint(0, len(cand)))
-        els = [[n, r.choice(VALS[kind])] for n in names]
+        els = [[n, (NONE if kind in ("text", "number") and r.random() < 0.12 else r.choice(VALS[kind]))] for n in names]      # an empty element clears the value
         return {"t": "set", "dev": tgt["dev"], "vec": tgt["vec"], "kind": kind, "st": r.choice(STATES), "els": els}
     if x < 0.93:
         return {"t": "del", "dev": dev, "vec": r.choice(VECS + [NONE, NONE]), "kind": NONE, "st": NONE, "els": []}
@@ -341,6 +341,15 @@ def random_trace(r, length: int) -> List[dict]:
                 op = {"o": "rmcrit", "dev": r.choice([NONE, "A"]), "vec": r.choice([NONE, "V"]), "el": r.choice([NONE, "x"]), "ty": r.choice([NONE, "Value", "State"])}
                 if all(op[k] == NONE for k in ("dev", "vec", "el", "ty")):
                     op["dev"] = "A"
+            elif x < 0.96 and [k for k in known if k["kind"] != "light"]:
+                # the application assigns (and sometimes submits) a value of its own: the mirrored value and the events are about
+                # what the SERVER said, not about the pending assignment
+                k = r.choice([k for k in known if k["kind"] != "light"])
+                if r.random() < 0.75:
+                    dom = {"text": ["p", "q", "a"], "number": ["1.5", "7", "1"], "switch": ["On", "Off"], "blob": ["B1", "B2"]}[k["kind"]]
+                    op = {"o": "edit", "dev": k["dev"], "vec": k["vec"], "el": r.choice(k["els"])[0], "x": r.choice(dom)}
+                else:
+                    op = {"o": "submit", "dev": k["dev"], "vec": k["vec"]}
             else:
                 op = {"o": "tick"}
             out.append(w.apply(op))
